@@ -512,6 +512,11 @@ func SliceIdx(off, i *Term) *Term {
 	if off.IsConst() && off.Val.Sign() == 0 {
 		return i
 	}
+	// a re-sliced slice has offset base+delta: keep the root offset as the first argument and fold the delta into the
+	// index, so that facts about the original slice match reads through the sub-slice
+	if off.Op == "+" && len(off.Args) == 2 && !off.Args[0].IsConst() {
+		return SliceIdx(off.Args[0], Add(off.Args[1], i))
+	}
 	if i.IsConst() {
 		return Add(off, i)
 	}
